@@ -1,0 +1,144 @@
+//go:build verif
+
+// Contracts for package setec (client), checked by /verif (govc). This file is
+// comment-only: it adds no code under any build tag.
+
+package setec
+
+// ---- store invariant -----------------------------------------------------------------------
+// I: every known name has a complete value; handles and watchers exist only for known names.
+//@ pred entryOK(s *Store, n string) { has(s.active.m, n) ==> (s.active.m[n] != nil && allocated(s.active.m[n]) && s.active.m[n].Secret != nil && allocated(s.active.m[n].Secret)) }
+//@ pred storeInv(s *Store) { s != nil && allocated(s) && s.active.m != nil && s.active.f != nil && s.active.w != nil && allocated(s.active.m) && allocated(s.active.f) && allocated(s.active.w) &&
+//@      s.timeNow != nil && s.logf != nil &&
+//@      (forall n string :: entryOK(s, n)) && (forall n string :: has(s.active.f, n) ==> (has(s.active.m, n) && s.active.f[n] != nil)) && (forall n string :: has(s.active.w, n) ==> has(s.active.f, n)) }
+//@ pred sameEntries(s *Store) { forall n string :: has(s.active.m, n) == old(has(s.active.m, n)) && (has(s.active.m, n) ==> (s.active.m[n] == old(s.active.m[n]) && s.active.m[n].Secret == old(s.active.m[n].Secret))) }
+//@ pred handlesKept(s *Store) { forall n string :: old(has(s.active.f, n)) ==> (has(s.active.f, n) && s.active.f[n] == old(s.active.f[n])) }
+
+//@ func (*cachedSecret).lastAccessTime(c) (t)
+//@   requires c != nil
+//@   ensures [C19 lastaccess] t == ite(c.LastAccess == 0, zeroTime(), unixTime(c.LastAccess))
+
+//@ func (*Store).hasExpired(s, cs) (res)
+//@   requires s != nil && cs != nil && s.timeNow != nil
+//@   ensures [C19 expired.iff] res == (!cs.Declared && s.expiryAge > 0 && timeSub(lastNow, ite(cs.LastAccess == 0, zeroTime(), unixTime(cs.LastAccess))) > s.expiryAge)
+//@   ensures [C19 expired.declared-never] cs.Declared ==> !res
+//@   ensures [C19 expired.noage-never] s.expiryAge <= 0 ==> !res
+//@   ensures [C12 expired.noeffect] net == old(net)
+
+// A handle: locks, stamps the access time, returns the installed bytes; no request to the service.
+//@ func (*Store).secretLocked$1() (b)
+//@   requires storeInv(s) && !s.active.Mutex && has(s.active.m, name)
+//@   ensures [C12 handle.served-value] b == old(s.active.m[name].Secret.Value) && sameEntries(s)
+//@   ensures [C12 handle.no-request] net == old(net)
+//@   ensures [C12 handle.unlocked] !s.active.Mutex && storeInv(s)
+//@   ensures [C19 handle.stamps-access] s.active.m[name].LastAccess == unixSec(lastNow)
+
+//@ func (*Store).secretLocked(s, name) (sec)
+//@   requires storeInv(s) && s.active.Mutex
+//@   ensures [C16 secretLocked.unknown] !has(s.active.m, name) ==> (sec == nil && handlesKept(s) && (forall n string :: has(s.active.f, n) == old(has(s.active.f, n))))
+//@   ensures [C12 secretLocked.known] has(s.active.m, name) ==> (sec != nil && has(s.active.f, name) && s.active.f[name] == sec)
+//@   ensures [C12 secretLocked.handles-kept] handlesKept(s) && (forall n string :: has(s.active.f, n) ==> (old(has(s.active.f, n)) || n == name))
+//@   ensures [C12 secretLocked.inv] storeInv(s) && s.active.Mutex && sameEntries(s) && net == old(net)
+
+//@ func (*Store).secretOrNil(s, name) (sec)
+//@   requires storeInv(s) && !s.active.Mutex
+//@   ensures [C16 secretOrNil.unknown] !has(s.active.m, name) ==> sec == nil
+//@   ensures [C12 secretOrNil.known] has(s.active.m, name) ==> (sec != nil && has(s.active.f, name) && s.active.f[name] == sec)
+//@   ensures [C12 secretOrNil.inv] storeInv(s) && !s.active.Mutex && sameEntries(s) && handlesKept(s) && net == old(net)
+
+//@ func (*Store).Secret(s, name) (sec)
+//@   requires storeInv(s) && !s.active.Mutex
+//@   panics !has(s.active.m, name) && !s.allowLookup
+//@   ensures [C16 secret.gate] !has(s.active.m, name) ==> sec == nil
+//@   ensures [C12 secret.known] has(s.active.m, name) ==> (sec != nil && has(s.active.f, name))
+//@   ensures [C16 secret.no-request] net == old(net) && storeInv(s) && sameEntries(s)
+
+//@ func (*Store).LookupSecret(s, ctx, name) (sec, err)
+//@   requires storeInv(s) && !s.active.Mutex && ctx != nil && s.client != nil
+//@   ensures [C16 lookup.gate] (!old(has(s.active.m, name)) && !s.allowLookup) ==> (sec == nil && err != nil && net == old(net) && sameEntries(s))
+//@   ensures [C16 lookup.known-no-request] old(has(s.active.m, name)) ==> (sec != nil && err == nil && net == old(net) && sameEntries(s))
+//@   ensures [C12 lookup.inv] storeInv(s) && !s.active.Mutex && handlesKept(s)
+//@ func (*Store).snapshotActive(s) (m)
+//@   ensures true
+//@ func (*Store).poll(s, ctx, updates) (err)
+//@   ensures true
+//@ func (*Store).applyUpdates(s, updates) (err)
+//@   ensures true
+//@ func (*Store).initializeActive(s, ctx) (err)
+//@   ensures true
+//@ func NewStore(ctx, cfg) (s, err)
+//@   ensures true
+//@ func (*Store).run(s, ctx, interval, done)
+//@   ensures true
+//@ func (*Store).Refresh(s, ctx) (err)
+//@   ensures true
+//@ func (*Store).Refresh$1() (v, err)
+//@   ensures true
+//@ func (*Store).lookupWatcher(s, ctx, name) (w, err)
+//@   ensures true
+//@ func (watcher).notify(w)
+//@   ensures true
+//@ func (StoreConfig).secretNames(c) (sec, svs, err)
+//@   ensures true
+//@ func NewFileClient(path) (fc, err)
+//@   ensures true
+//@ func do(ctx, c, path, req) (resp, err)
+//@   ensures true
+//@ func (*Fields).Secrets(f) (out)
+//@   ensures true
+//@ func (*Fields).Apply(f, ctx, s) (err)
+//@   ensures true
+//@ func (fieldInfo).apply(f, ctx, s, fullName) (err)
+//@   ensures true
+//@ func parseFields(obj) (fi, err)
+//@   ensures true
+
+// ---- cache ---------------------------------------------------------------------------------
+// the document written is the whole active map
+//@ pred cacheDocAt(s *Store, n string) { cjHas(lastCacheData, n) == has(s.active.m, n) && (has(s.active.m, n) ==>
+//@      (!cjEntryNull(lastCacheData, n) && !cjSecretNull(lastCacheData, n) && cjVersion(lastCacheData, n) == s.active.m[n].Secret.Version &&
+//@       cjValue(lastCacheData, n) == bytes(s.active.m[n].Secret.Value) && cjLastAccess(lastCacheData, n) == s.active.m[n].LastAccess)) }
+//@ func (*Store).flushCacheLocked(s) (err)
+//@   requires s != nil && s.active.m != nil && (forall n string :: entryOK(s, n))
+//@   ensures [C13 flush.nocache] s.cache == nil ==> (err == nil && cacheWrites == old(cacheWrites))
+//@   ensures [C13 flush.whole-map] (s.cache != nil && err == nil) ==> (cacheWrites == old(cacheWrites) + 1 && !cjNull(lastCacheData) && (forall n string :: cacheDocAt(s, n)))
+//@   ensures [C13 flush.attempted] s.cache != nil ==> cacheWrites == old(cacheWrites) + 1
+//@   ensures [C13 flush.at-most-one] cacheWrites == old(cacheWrites) || cacheWrites == old(cacheWrites) + 1
+//@   ensures [C12 flush.noeffect] sameEntries(s) && net == old(net)
+//@ func (FileCache).Write(f, data) (err)
+//@   ensures [C05,C13 filecache.atomic-0600] err == nil ==> disk == diskWrite(old(disk), str(f), bytes(data), 384)
+//@   ensures [C13 filecache.fail-keeps-old] err != nil ==> disk == old(disk)
+
+// ---- lookups -------------------------------------------------------------------------------
+//@ func (*Store).lookupSecretInternal$1() (v, err)
+//@   requires storeInv(s) && !s.active.Mutex && ctx != nil && s.client != nil
+//@   ensures [C16 lookupfn.fail-installs-nothing] err != nil ==> (v == nil && sameEntries(s) && cacheWrites == old(cacheWrites))
+//@   ensures [C16 shared lookupfn.success-installs] err == nil ==> (v != nil && isType(v, "Secret") && has(s.active.m, name) && has(s.active.f, name) && isHandleOf(v, s.active.f[name]))
+//@   ensures [C16 lookupfn.served] err == nil ==> served(name, ref(s.active.m[name].Secret))
+//@   ensures [C16 lookupfn.one-request] net == old(net) + 1
+//@   ensures [C13 lookupfn.flushed] (err == nil && s.cache != nil) ==> cacheWrites == old(cacheWrites) + 1
+//@   ensures [C12 shared lookupfn.inv] storeInv(s) && !s.active.Mutex && handlesKept(s)
+//@   ensures [C12 lookupfn.others-kept] forall n string :: n != name ==> (has(s.active.m, n) == old(has(s.active.m, n)) && (has(s.active.m, n) ==> s.active.m[n].Secret == old(s.active.m[n].Secret)))
+//@   ensures [C16 lookupfn.ran] ran
+//@   at call Get: assert [C12 lookupfn.no-request-under-lock] !s.active.Mutex
+//@   at call Get: assert [C16 lookupfn.fallback-5min] hasDeadline(arg_ctx) && (!hasDeadline(ctx) ==> deadlineOf(arg_ctx) <= clock + 300000000000)
+
+//@ func (*Store).lookupSecretInternal(s, ctx, name) (sec, err)
+//@   requires storeInv(s) && !s.active.Mutex && ctx != nil && s.client != nil
+//@   ensures [C12 lookupint.inv] storeInv(s) && !s.active.Mutex && handlesKept(s)
+//@   ensures [C16 lookupint.success] err == nil ==> (sec != nil && has(s.active.m, name) && has(s.active.f, name))
+//@   ensures [C16 lookupint.fail] err != nil ==> sec == nil
+//@   loop 0
+//@     invariant [state] storeInv(s) && !s.active.Mutex && ctx != nil && s.client != nil && handlesKept(s)
+//@     progress [C16 lookupint.retry-only-others-failure] !ran && lastCtxErr == nil
+
+// ---- file client ---------------------------------------------------------------------------
+//@ func (*FileClient).Get(fc, ctx, name) (sv, err)
+//@   requires fc != nil
+//@   ensures [C09 fileclient.get] (has(fc.db, name) ==> (sv == fc.db[name] && err == nil)) && (!has(fc.db, name) ==> (sv == nil && err == api.ErrNotFound))
+//@ func (*FileClient).GetIfChanged(fc, ctx, name, oldVersion) (sv, err)
+//@   requires fc != nil && (forall n string :: has(fc.db, n) ==> fc.db[n] != nil)
+//@   ensures [C09 fileclient.notfound] !has(fc.db, name) ==> (sv == nil && err == api.ErrNotFound)
+//@   ensures [C09 fileclient.iff-unchanged] has(fc.db, name) ==> ((err == api.ErrValueNotChanged) == (fc.db[name].Version == oldVersion))
+//@   ensures [C09 fileclient.value] (has(fc.db, name) && fc.db[name].Version != oldVersion) ==> (sv == fc.db[name] && err == nil)
+//@   ensures [C09 fileclient.errors] err == nil || err == api.ErrNotFound || err == api.ErrValueNotChanged
